@@ -41,6 +41,7 @@ func Replay(t []uint32) *Source {
 	return &Source{replay: true, in: t, h: 1469598103934665603}
 }
 
+//go:norace
 func (s *Source) next() uint64 {
 	s.state += 0x9E3779B97F4A7C15
 	z := s.state
@@ -50,6 +51,8 @@ func (s *Source) next() uint64 {
 }
 
 // Intn returns a choice in [0,n). n<=1 returns 0 without consuming the tape.
+//
+//go:norace
 func (s *Source) Intn(n int, label string) int {
 	if n <= 1 {
 		return 0
@@ -63,7 +66,17 @@ func (s *Source) Intn(n int, label string) int {
 	} else {
 		v = uint32(s.next()>>33) % uint32(n)
 	}
-	s.Rec = append(s.Rec, v)
+	// manual growth: growslice is race-annotated by the runtime even in norace
+	// code, and Intn runs on simulated task goroutines
+	if n := len(s.Rec); n == cap(s.Rec) {
+		grown := make([]uint32, n, 2*n+256)
+		for i := 0; i < n; i++ {
+			grown[i] = s.Rec[i]
+		}
+		s.Rec = grown
+	}
+	s.Rec = s.Rec[:len(s.Rec)+1]
+	s.Rec[len(s.Rec)-1] = v
 	if s.KeepLabels {
 		s.Labels = append(s.Labels, label)
 	}
@@ -72,6 +85,8 @@ func (s *Source) Intn(n int, label string) int {
 }
 
 // Bool is true with probability num/den; 0 maps to false.
+//
+//go:norace
 func (s *Source) Bool(num, den int, label string) bool {
 	if num <= 0 {
 		return false
